@@ -13,6 +13,7 @@ import YorkieModel.Driver.TextEngine
 import YorkieModel.Driver.LocksEngine
 import YorkieModel.Driver.YsonEngine
 import YorkieModel.Driver.CodecEngine
+import YorkieModel.Driver.PresenceEngine
 open Yorkie.Driver
 
 def engines : List (String × Engine) := [
@@ -32,7 +33,8 @@ def engines : List (String × Engine) := [
   ("locks", LocksEngine.engine),
   ("yson", YsonEngine.engine),
   ("codec", CodecEngine.engine),
-  ("pbfuzz", CodecEngine.pbfuzzEngine)
+  ("pbfuzz", CodecEngine.pbfuzzEngine),
+  ("presence", PresenceEngine.engine)
 ]
 
 partial def loop (e : Engine) (h : IO.FS.Stream) (out : IO.FS.Stream) (st : e.State) : IO Unit := do
